@@ -19,7 +19,7 @@ while time.time() - t0 < mins * 60 and len(found) < 5:
         nf = rng.randint(3, 8)
         progs = []
         for _f in range(nf):
-            p = [(rng.choice([9, 9, 2, 3, 2, 3, 10, 1, 6, 7, 8, 12, 13, 14, 4, 5]), rng.randint(0, 1)) for _ in range(rng.randint(2, 7))]
+            p = [(rng.choice([17, 17, 17, 9, 15, 15, 16, 2, 3, 1, 7, 8, 10]), rng.randint(0, 1)) for _ in range(rng.randint(2, 7))]
             progs.append(p)
         length = rng.randint(200, 4000)
         cases.append(core.fmt_case([80000, nk], progs, core.random_sched(rng, nk, length, rng.randrange(3))))
